@@ -114,8 +114,15 @@ inductive Op
   | instrument (h f : Key)                        -- f = fut.instrument(h)
   | poll (t : Tid) (f : Key)
   | dropFuture (t : Tid) (f : Key)
+  | dropFutureHolding (t : Tid) (f k : Key)       -- the instrumented inner future owns handle k: dropped with it
   | setDefault (t : Tid) (c : Option Cid)
 deriving Repr
+
+/-- `drop(handle)`: `Drop for Span` calls `try_close` on the handle's own collector -/
+def dropHandle (s : PState) (h : Key) : PState :=
+  match take h s.owners with
+  | some (o, rest) => if o.kind = .handle then doClose { s with owners := rest } o.ref else s
+  | none => s
 
 def step (s : PState) : Op → PState
   | .newSpan t h lvl =>
@@ -134,10 +141,7 @@ def step (s : PState) : Op → PState
       | .handle, none => { s with owners := ⟨h2, .handle, none⟩ :: s.owners }
       | _, _ => s
     | none => s
-  | .drop h =>
-    match take h s.owners with
-    | some (o, rest) => if o.kind = .handle then doClose { s with owners := rest } o.ref else s
-    | none => s
+  | .drop h => dropHandle s h
   | .enter t h g =>
     match take h s.owners with
     | some (o, rest) =>
@@ -200,6 +204,12 @@ def step (s : PState) : Op → PState
     match take f s.owners with
     | some (o, rest) =>
       if o.kind = .future then doClose (doExit (doEnter { s with owners := rest } o.ref t) o.ref t) o.ref else s
+    | none => s
+  | .dropFutureHolding t f k =>
+    -- PinnedDrop for Instrumented: enter the span, drop the inner future (which drops what it owns), exit; then the span field
+    match take f s.owners with
+    | some (o, rest) =>
+      if o.kind = .future then doClose (doExit (dropHandle (doEnter { s with owners := rest } o.ref t) k) o.ref t) o.ref else s
     | none => s
   | .setDefault t c => { s with dflt := update s.dflt t c }
 
